@@ -18,6 +18,16 @@ def observe(tf, root, pl, via_cli, out):
         if via_cli is True:
             tf.execute(["create", root, "--piece-length", str(pl), "--prog", "0",
                         "-o", out])
+        elif via_cli == "default-out":
+            # the library creator without an output path: <cwd>/<name>.torrent
+            from torrentfile.torrent import TorrentFile
+            here = os.getcwd()
+            os.chdir(os.path.dirname(out))
+            try:
+                written, _ = TorrentFile(path=root, piece_length=pl, progress=0).write()
+            finally:
+                os.chdir(here)
+            out = str(written)
         else:
             from torrentfile.torrent import TorrentFile
             obj = TorrentFile(path=root, piece_length=pl, progress=0, outfile=out)
@@ -79,6 +89,10 @@ def nontrivial(files, pl, single):
 
 
 def run_case(run, tf, drv, files, pl, single, via_cli, tag, spelling=None, out_inside=None):
+    if via_cli == "default-out" and spelling:
+        via_cli = False         # (the default output is relative to the working directory: absolute roots only)
+    if via_cli == "default-out":
+        out_inside = False
     if out_inside is None:
         out_inside = not single and tag == "random" and \
             (len(files) * 7 + pl // 16384 + len(str(spelling)) + sum(len(b) for _, b in files)) % 5 == 0
@@ -204,9 +218,13 @@ def run(tier, seed, replay=None):
     else:
         from harness.props import creation as _crc
         for files, pl, single in _crc.corner_cases():
-            if sum(len(b) for _, b in files):       # C01: trees with at least one byte
-                for via in (False, True, "again1"):
-                    run_case(run, tf, drv, files, pl, single, via, "corner")
+            for via in (False, True, "again1"):
+                run_case(run, tf, drv, files, pl, single, via, "corner")
+        # an entry named '~' directly below a root that is spelled '.' / './payload'
+        tilde = gen.FileList([("~/inside", Blob.rand(5, 20000)), ("~user", Blob.rand(6, 10)), ("a", Blob.rand(7, 16384))])
+        for via in (False, True):
+            for sp in ("dot", "dotslash", None):
+                run_case(run, tf, drv, tilde, 16384, False, via, "corner", spelling=sp, out_inside=False)
         n = 160 if tier == "quick" else 1500
         for i in range(n):
             pl = gen.pick_pl(rng)
@@ -217,7 +235,8 @@ def run(tier, seed, replay=None):
             else:
                 files, _ = gen.tree(rng, B, pl, big=(tier != "quick"))
             run_case(run, tf, drv, files, pl, single,
-                     rng.choice([True] * 6 + [False] * 11 + ["again1", "again1", "again2"]), "random",
+                     rng.choice([True] * 6 + [False] * 11 + ["again1", "again1", "again2", "default-out", "default-out"]),
+                     "random",
                      spelling=rng.choice([None, None, None, "trail", "dot", "dotslash", "dbl", "updown"]))
         big_piece(run)
         if tier == "thorough":
